@@ -262,7 +262,7 @@ func (m *Model) RunErrLine(s *Sink, rule string) {
 			s.Violation(rule, fnKey(st)+"|each render gets its own evaluator and context", m.Pos(st.Pos()), "the evaluator (or its context) used by String is not created in the call from the page's own path (e.g. cached on the Template): errors of later renders name the file of an earlier one")
 		}
 	}
-	pp := m.PkgFunc("textwire", "parseProgram")
+	pp := m.PkgFuncOr("textwire", "parseProgram", func(f *ssa.Function) bool { return callsNamed(f, "ParseProgram", "parser.Parser") && len(f.Params) == 1 })
 	if pp != nil {
 		ok := false
 		m.walkInlined(pp, 2, func(in ssa.Instruction, resolve func(ssa.Value) ssa.Value, _ int) {
